@@ -82,9 +82,10 @@ func TestC11(t *testing.T) {
 		}
 		// a replica whose operator started it with other node-local options: invariants not asserted at
 		// genesis and / or asserted periodically by x/crisis
-		flags := NodeFlags{SkipGenesisInvariants: rapid.Bool().Draw(t, "skipGenesisInvariants"), InvCheckPeriod: uint(rapid.IntRange(0, 3).Draw(t, "invCheckPeriod")),
-			TimeZone: NodeTimeZones[rapid.IntRange(0, len(NodeTimeZones)-1).Draw(t, "timeZone")], // ... on a machine in another time zone
-			DebugLog: rapid.Bool().Draw(t, "debugLog")}                                           // ... with debug logging switched on
+		// (and: telemetry, inter-block cache, IAVL cache size, pruning, minimum gas prices, tracing, event
+		// indexing, a halt height - everything an operator sets in app.toml or on the command line), on a
+		// machine in another time zone, with debug logging switched on
+		flags := DrawNodeFlags(t, "")
 		if diff := compareTraces(traceA, ReplayAs(d.hist, ReplicaOpts{Flags: flags})); diff != "" {
 			t.Fatalf("a replica started with node-local options %+v diverged from one started with the defaults: %s\nhistory:\n%s", flags, diff, jsonStr(d.log))
 		}
